@@ -403,9 +403,101 @@ def native_crash(cfgname, n, hist, j, cv, entry):
     finally:
         shutil.rmtree(d, ignore_errors=True)
 
+def run_rearm(u):
+    """restarting a run re-arms the automatic snapshot schedule with the same arguments.  Inductive step from an ARBITRARY restored
+    state (symbolic t, steps_done, stored interval / step count and next-snapshot marks): with the same interval (step count) the
+    stored marks must be kept — otherwise the restarted run writes a duplicate or skips a snapshot and the archive differs from the
+    uninterrupted one — and with a different one the schedule restarts at the current time (step)."""
+    rep = Report(); kind = u['kind']; label = "re-arming the %s schedule on a restored simulation " % kind
+    L = build.layout()
+    def run(ctx):
+        dom = Real(); I = new_interp(dom, ctx); I.concrete_env = True
+        sim = Sim(I); sim.add(m=1.0)
+        t, nxt, ai, iv = dom.fresh('t'), dom.fresh('next'), dom.fresh('stored_interval'), dom.fresh('interval')
+        sd, ns_, as_, sv = z3.BitVec('steps_done', 64), z3.BitVec('next_step', 64), z3.BitVec('stored_step', 64), z3.BitVec('step', 64)
+        sim.set('t', t); sim.set('simulationarchive_next', nxt); sim.set('simulationarchive_auto_interval', ai)
+        sim.set('steps_done', sd); sim.set('simulationarchive_next_step', ns_); sim.set('simulationarchive_auto_step', as_)
+        fn = I.cstr('run.bin')
+        if kind == 'interval': I.call('@reb_simulation_save_to_file_interval', [sim.ptr, fn, iv])
+        else: I.call('@reb_simulation_save_to_file_step', [sim.ptr, fn, sv])
+        return I, dom, sim, (t, nxt, ai, iv, sd, ns_, as_, sv)
+    ex = Explorer(run, max_paths=16, timeout_ms=3000); ex.explore()
+    rep.queries += ex.nqueries; rep.solver_time += ex.qtime
+    for ctx, (I, dom, sim, (t, nxt, ai, iv, sd, ns_, as_, sv)) in ex.results:
+        rep.paths += 1; rep.add_interp(I)
+        ob = Obligations(rep, Prover(t_inproc_ms=5000, use_external=False), label + "path%d " % rep.paths)
+        pc = list(ctx.pc)
+        def on_sat(model):
+            bad, detail = native_rearm(kind)
+            return bad, 'C07:rearm:%s' % kind, detail, dict(kind='rearm', sched=kind)
+        if kind == 'interval':
+            n2 = dom.z(sim.get('simulationarchive_next')); a2 = dom.z(sim.get('simulationarchive_auto_interval'))
+            ob.prove("same interval: the stored next-snapshot time and interval are kept", z3.Implies(iv == ai, z3.And(n2 == nxt, a2 == ai)), pc, on_sat=on_sat, domain='REAL')
+            ob.prove("different interval: the schedule restarts at the current time", z3.Implies(iv != ai, z3.And(n2 == t, a2 == iv)), pc, on_sat=on_sat, domain='REAL')
+        else:
+            n2 = sim.get('simulationarchive_next_step'); a2 = sim.get('simulationarchive_auto_step')
+            ob.prove("same step count: the stored next-snapshot step and step count are kept", z3.Implies(sv == as_, z3.And(n2 == ns_, a2 == as_)), pc, on_sat=on_sat, domain='BV64')
+            ob.prove("different step count: the schedule restarts at the current step", z3.Implies(sv != as_, z3.And(n2 == sd, a2 == sv)), pc, on_sat=on_sat, domain='BV64')
+        ob.witness("path", pc)
+    bad, detail = native_rearm(kind); rep.replays += 1
+    if bad: rep.violations.append(dict(key='C07:rearm:%s' % kind, what=detail, replay=dict(kind='rearm', sched=kind), obligation=label + 'native twin'))
+    return rep
+
+def native_rearm(kind):
+    try: return isolated(_native_rearm, kind, timeout=120)
+    except NativeCrash as e: return True, "the native library crashed (signal %s) while restarting a run with an automatic %s schedule" % (e.sig, kind)
+
+def _native_rearm(kind):
+    """native: an archive written with automatic snapshots is cut inside its first appended snapshot; the run restarted from the last
+    intact snapshot (snapshot 0) with the same schedule must produce the same number of snapshots at the same times as the uninterrupted run"""
+    import ctypes
+    N_ = Native(); L = N_.L
+    d = tempfile.mkdtemp(prefix='llsym_c07a_')
+    try:
+        def run_full(fn, upto):
+            ns = N_.create(); ns.add(m=1.0); ns.add(m=1e-3, x=1.0, vy=1.0)
+            ns.set('integrator', L.enumerators['REB_INTEGRATOR_WHFAST']); ns.set('dt', 0.1)
+            arm(ns, fn); integ(ns, upto); ns.free()
+        def arm(ns, fn):
+            if kind == 'interval':
+                f = N_.lib.reb_simulation_save_to_file_interval; f.argtypes = [ctypes.c_void_p, ctypes.c_char_p, ctypes.c_double]; f.restype = None; f(ns.addr, fn, 1.0)
+            else:
+                f = N_.lib.reb_simulation_save_to_file_step; f.argtypes = [ctypes.c_void_p, ctypes.c_char_p, ctypes.c_uint64]; f.restype = None; f(ns.addr, fn, 10)
+        def integ(ns, tmax):
+            f = N_.lib.reb_simulation_integrate; f.argtypes = [ctypes.c_void_p, ctypes.c_double]; f.restype = ctypes.c_int; f(ns.addr, tmax)
+        def times(fn):
+            op = N_.lib.reb_simulationarchive_create_from_file; op.argtypes = [ctypes.c_char_p]; op.restype = ctypes.c_void_p
+            sa = op(fn)
+            if not sa: return None
+            v = NView(N_, sa, 'reb_simulationarchive'); n = v.get('nblobs'); ta = v.get('t')
+            out = [ctypes.c_double.from_address(ta + 8 * k).value for k in range(n)]
+            fr = N_.lib.reb_simulationarchive_free; fr.argtypes = [ctypes.c_void_p]; fr(sa); return out
+        full = os.path.join(d, 'full.bin').encode(); run_full(full, 3.05)
+        ref = times(full)
+        cut = os.path.join(d, 'cut.bin').encode(); run_full(cut, 1.05)            # snapshots at t = 0 and t ~ 1
+        raw = open(cut, 'rb').read()
+        t1 = times(cut)
+        # cut inside the second snapshot: find the size of an archive holding only snapshot 0 by writing one
+        only0 = os.path.join(d, 'only0.bin').encode(); run_full(only0, 0.05)
+        n0 = os.path.getsize(only0)
+        open(cut, 'wb').write(raw[:n0 + (len(raw) - n0) // 2])
+        ld = N_.lib.reb_simulation_create_from_file; ld.argtypes = [ctypes.c_char_p, ctypes.c_int64]; ld.restype = ctypes.c_void_p
+        p = ld(cut, -1)
+        if not p: return False, "native: the cut archive does not open (outside this unit)"
+        ns = NSim(N_, p); arm(ns, cut); integ(ns, 3.05); ns.free()
+        got = times(cut)
+        bad = got is None or ref is None or len(got) != len(ref) or any(abs(a - b) > 1e-9 for a, b in zip(got, ref))
+        return bad, "native %s schedule: uninterrupted run has snapshots at %r, run restarted from the cut archive (last intact snapshot: the first) has %r" % (kind, [round(x, 6) for x in (ref or [])], [round(x, 6) for x in (got or [])])
+    finally:
+        shutil.rmtree(d, ignore_errors=True)
+
 def replay(data):
+    if data.get('kind') == 'rearm': return native_rearm(data['sched'])
     if data.get('kind') == 'restart': return native_restart(data['cfg'], data['n'], data['hist'], data['j'], int(data['c']))
     return native_crash(data['cfg'], data['n'], data['hist'], data['j'], int(data['c']), data['entry'])[:2]
+
+def run_any(u):
+    return run_rearm(u) if u.get('what') == 'rearm' else run_unit(u)
 
 def main():
     tier = os.environ.get('VERIF_TIER') or (sys.argv[1] if len(sys.argv) > 1 else 'quick')
@@ -421,7 +513,8 @@ def main():
                 K = 6 if j == 0 else 1
                 for q in range(K):
                     us.append(dict(cfg=cfg, n=2, hist=h, j=j, entry=entry, crange=(q / K, (q + 1) / K)))
-    rep = run_units(us, run_unit)
+    us.append(dict(what='rearm', kind='interval')); us.append(dict(what='rearm', kind='step'))
+    rep = run_units(us, run_any)
     code = finish(PID, tier, rep, t0,
         bounds=dict(archives=len(archs), snapshots='2..3', particles=2, crash_points='every byte offset of every write (symbolic)', entry_points=['reb_simulationarchive_create_from_file', 'reb_simulationarchive_create_from_file_with_messages on a caller-owned struct']),
         assumptions=['bytes reach the file in program order and a crash leaves a prefix of the write stream (no reordering, no torn sectors)', 'malloc never fails',
